@@ -8,8 +8,8 @@
                                (Model/Request.v PART 2);
    cd : codec                = the LZ4 / Snappy functions, an explicit parameter; [codec_ok cd]
                                (decompress (compress b) = b) is an explicit premise where used.
-   The premise [blen f < 4294967296 + 9] (body below 4 GiB) is necessary: the code writes
-   `(len as u32)`; see C09_len32_wraps. *)
+   Since /repo a9f519c ("fix: refuse a request whose body does not fit in the frame's 32-bit
+   length field") the model has the two `u32::try_from` checks, so no size premise is needed. *)
 From SV Require Import Base.Prelude Base.Bytes Model.Request Proofs.Request_proofs.
 Open Scope N_scope.
 
@@ -20,7 +20,7 @@ Open Scope N_scope.
    (request equality) — for every request, hence for all 2^6 subsets of optional parts. *)
 Theorem C09_parse_encode : forall cd alg tr r f mid,
   req_wf r -> mid_matches mid r ->
-  encode_request cd None tr r = Ok f -> blen f < 4294967296 + 9 ->
+  encode_request cd None tr r = Ok f ->
   parse_frame cd alg mid f
   = Ok (mkHeader 4 (if tr then 2 else 0) 0 (opcode r) (blen f - 9), r).
 Proof. exact parse_encode. Qed.
@@ -36,7 +36,6 @@ Proof. exact plain_body. Qed.
 Theorem C09_compressed : forall cd alg tr r f mid body,
   codec_ok cd -> req_wf r -> mid_matches mid r ->
   encode_request cd (Some alg) tr r = Ok f -> serialize_request r = Ok body ->
-  blen body < 4294967296 -> blen f < 4294967296 + 9 ->
   decompress cd alg (skipn 9 f) = Some body /\
   parse_frame cd (Some alg) mid f
   = Ok (mkHeader 4 (if tr then 3 else 1) 0 (opcode r) (blen f - 9), r).
@@ -44,16 +43,29 @@ Proof. exact compressed. Qed.
 
 (* Oversize inputs are refused, never truncated: a [string]/[short bytes] of >= 2^16 bytes, a
    [long string]/[bytes]/value of >= 2^31 bytes, more than 65535 values, statements, map entries
-   or event types. *)
+   or event types ([oversize]); and a serialised body of 2^32 bytes or more ([body_too_long]; with
+   Snappy the check is on the compressed payload: C09_payload_too_long). *)
 Theorem C09_oversize : forall cd c tr r,
-  oversize r = true -> exists e, encode_request cd c tr r = Err e.
+  oversize r = true \/ (body_too_long r = true /\ c <> Some Snappy) ->
+  exists e, encode_request cd c tr r = Err e.
 Proof. exact oversize_refused_frame. Qed.
+Theorem C09_body_too_long : forall cd c tr r body,
+  serialize_request r = Ok body -> 4294967296 <= blen body -> c <> Some Snappy ->
+  encode_request cd c tr r = Err (ErrBodyTooLong (blen body)).
+Proof. exact body_too_long_class. Qed.
+Theorem C09_payload_too_long : forall cd alg tr r body payload,
+  serialize_request r = Ok body -> compress_append cd alg body = Ok payload ->
+  4294967296 <= blen payload ->
+  encode_request cd (Some alg) tr r = Err (ErrBodyTooLong (blen payload)).
+Proof. exact payload_too_long. Qed.
 
-(* ... and nothing else is refused (uncompressed or LZ4; Snappy may fail inside the codec) *)
+(* ... and nothing else is refused (uncompressed; LZ4 when the compressed payload fits too;
+   Snappy may fail inside the codec) *)
 Theorem C09_encode_total : forall cd tr r,
-  oversize r = false -> batch_counts_match r = true ->
+  oversize r = false -> batch_counts_match r = true -> body_too_long r = false ->
   (exists f, encode_request cd None tr r = Ok f) /\
-  (exists f, encode_request cd (Some Lz4) tr r = Ok f).
+  (forall body, serialize_request r = Ok body -> 4 + blen (lz4_compress cd body) < 4294967296 ->
+     exists f, encode_request cd (Some Lz4) tr r = Ok f).
 Proof. exact encode_total_frame. Qed.
 
 (* a batch whose number of value lists differs from its number of statements is refused, with
@@ -76,8 +88,7 @@ Proof. exact bad_batch_unreachable_frame. Qed.
 (* two different requests never produce the same frame (same negotiated extension) *)
 Theorem C09_encode_injective : forall cd tr r1 r2 f,
   req_wf r1 -> req_wf r2 -> uses_mid r1 = uses_mid r2 ->
-  encode_request cd None tr r1 = Ok f -> encode_request cd None tr r2 = Ok f ->
-  blen f < 4294967296 + 9 -> r1 = r2.
+  encode_request cd None tr r1 = Ok f -> encode_request cd None tr r2 = Ok f -> r1 = r2.
 Proof. exact encode_injective. Qed.
 
 (* set_stream changes the stream id of the header and nothing else *)
@@ -94,32 +105,24 @@ Theorem C09_frame_says_sound : forall cd c tr r f, frame_says cd c tr r f = true
             h_length h + 9 = blen f /\ h_flags h = frame_flags (is_some c) tr /\ h_stream h = 0%Z.
 Proof. exact frame_says_sound. Qed.
 Theorem C09_frame_says_complete : forall cd tr r f,
-  req_wf r -> encode_request cd None tr r = Ok f -> blen f < 4294967296 + 9 ->
-  frame_says cd None tr r f = true.
+  req_wf r -> encode_request cd None tr r = Ok f -> frame_says cd None tr r f = true.
 Proof. exact frame_says_complete. Qed.
 
-(* The "< 4 GiB" premise cannot be dropped: for a QUERY whose text, paging state and single value
-   have 2^31-1 bytes each (all individually legal) the model of the code returns Ok with a length
-   field that is the body size modulo 2^32, and the protocol parser rejects the frame.  (Such a
-   [big] exists: C09_ex_big.) *)
-Theorem C09_len32_wraps : forall cd big, blen big = 2147483647 ->
-  exists f, encode_request cd None false
-              (Query big (mkQP One None None None (Some big) false [CVal big])) = Ok f /\
-            parse_frame cd None false f = Err PBadLength.
-Proof. exact len32_wraps. Qed.
-
-(* The same on the request shape the on-demand reproducer and the tie's `L` case use (a BATCH of n
-   identical unprepared statements, empty value lists): the frame has 9 + batch_body_len bytes and
-   its length field is header_len_field of the body size, which differs from the body size exactly
-   on [len32_class] (finding frame-len32-wrap; C09_parse_encode excludes that class by premise). *)
-Theorem C09_len32_batch : forall cd text n f,
+(* Bodies around 4 GiB, on the request shape of the tie's `L` cases (an uncompressed BATCH of n
+   identical unprepared statements with empty value lists): as far as sizes go the code returns
+   exactly [uniform_batch_outcome]: a frame of 9 + size bytes whose length field is the size, or
+   BodyTooLong(size) from 2^32 on.  (Before a9f519c the second case was Ok with size mod 2^32.) *)
+Theorem C09_uniform_batch : forall cd text n,
   blen text < 2147483648 -> N.of_nat n < 65536 ->
-  encode_request cd None false (Batch Logged (repeat (SQuery text) n) (repeat [] n) One None None) = Ok f ->
-  blen f = 9 + batch_body_len (N.of_nat n) (blen text) /\
-  be_dec (firstn 4 (skipn 5 f)) = header_len_field (batch_body_len (N.of_nat n) (blen text)).
-Proof. exact len32_batch. Qed.
-Theorem C09_len32_class : forall b, header_len_field b = b <-> len32_class b = false.
-Proof. exact len32_class_spec. Qed.
+  match uniform_batch_outcome (N.of_nat n) (blen text) with
+  | Ok b => exists f, encode_request cd None false
+                        (Batch Logged (repeat (SQuery text) n) (repeat [] n) One None None) = Ok f /\
+                      blen f = 9 + b /\ be_dec (firstn 4 (skipn 5 f)) = b
+  | Err b => encode_request cd None false
+               (Batch Logged (repeat (SQuery text) n) (repeat [] n) One None None)
+             = Err (ErrBodyTooLong b) /\ 4294967296 <= b
+  end.
+Proof. exact uniform_batch. Qed.
 
 (* ---- non-vacuity: concrete requests meeting the hypotheses, with non-trivial outputs ---- *)
 Definition ex_codec : codec :=
@@ -180,13 +183,14 @@ Example C09_ex_set_stream :
   forall f, encode_request ex_codec None false Options = Ok f ->
             set_stream (-2) f = [4; 0; 255; 254; 5; 0; 0; 0; 0].
 Proof. intros f H. vm_compute in H. injection H as <-. vm_compute. reflexivity. Qed.
-Example C09_ex_len32 :
-  len32_class (batch_body_len 5 1073741824) = true /\
-  batch_body_len 5 1073741824 = 5368709161 /\ header_len_field (batch_body_len 5 1073741824) = 1073741865 /\
-  len32_class (batch_body_len 3 1073741824) = false.
+Example C09_ex_sizes :
+  uniform_batch_outcome 4 1073741824 = Err 4294967330 /\
+  uniform_batch_outcome 3 1073741824 = Ok 3221225499 /\ uniform_batch_outcome 3 1024 = Ok 3099.
 Proof. repeat split; vm_compute; reflexivity. Qed.
-Example C09_ex_big : blen (repeat 0 (N.to_nat 2147483647)) = 2147483647.
-Proof. exact big_exists. Qed.
+(* a 1 GiB text exists, so the Err case of C09_uniform_batch / the premises of C09_body_too_long
+   are met by a real request (4 statements of 1 GiB) *)
+Example C09_ex_big : blen (repeat 115 (N.to_nat 1073741824)) = 1073741824.
+Proof. unfold blen. rewrite repeat_length. apply N2Nat.id. Qed.
 
 Print Assumptions C09_parse_encode.
 Print Assumptions C09_plain_body.
@@ -200,6 +204,6 @@ Print Assumptions C09_encode_injective.
 Print Assumptions C09_set_stream.
 Print Assumptions C09_frame_says_sound.
 Print Assumptions C09_frame_says_complete.
-Print Assumptions C09_len32_wraps.
-Print Assumptions C09_len32_batch.
-Print Assumptions C09_len32_class.
+Print Assumptions C09_body_too_long.
+Print Assumptions C09_payload_too_long.
+Print Assumptions C09_uniform_batch.
